@@ -3,6 +3,7 @@
 package saml2
 
 import (
+	"crypto"
 	"crypto/tls"
 
 	dsig "github.com/russellhaering/goxmldsig"
@@ -89,4 +90,32 @@ func VH_C07_recipient() {
 	vAssert("C07.mismatching-recipient-certificate-is-refused", vImplies(mismatch, err != nil))
 	vAssert("C07.no-private-key-operation-for-a-mismatching-recipient", vImplies(mismatch, vRSADecryptCalls() == 0))
 	vAssert("C07.undecodable-recipient-certificate-is-refused", vImplies(vAnd(named != "", vNot(vB64OK(named))), err != nil))
+}
+
+// VH_C11_rekey: a long-lived SP whose encryption key is replaced between two uses (the setter is called, or the
+// field is reassigned): from then on decryption uses the new key — the one whose certificate the SP now publishes.
+func VH_C11_rekey() {
+	sp := &SAMLServiceProvider{Clock: vClock("sp")}
+	keyA, keyB := vRSAKey("A"), vRSAKey("B")
+	certA, certB := vBytes("certA"), vBytes("certB")
+	sp.SPKeyStore = &vhKS{key: keyA, cert: certA}
+	dc1, err1 := sp.getDecryptCert()
+	vDebugErr("first", err1)
+	if err1 != nil || dc1 == nil {
+		return
+	}
+	vAssert("C11,C07.first-use-takes-the-configured-key", dc1.PrivateKey == crypto.PrivateKey(keyA))
+	if vFlag("rekey-by-setter") {
+		sp.SetSPKeyStore(&KeyStore{Signer: keyB, Cert: certB})
+	} else {
+		sp.SPKeyStore = &vhKS{key: keyB, cert: certB}
+	}
+	dc2, err2 := sp.getDecryptCert()
+	vDebugErr("second", err2)
+	vReach("second-use", err2 == nil)
+	ok := err2 == nil && dc2 != nil && dc2.PrivateKey == crypto.PrivateKey(keyB) && len(dc2.Certificate) == 1
+	vAssert("C11,C07,C17.a-replaced-encryption-key-is-used-from-then-on", ok)
+	if ok {
+		vAssert("C11,C07,C17.with-its-own-certificate", vBytesEq(dc2.Certificate[0], certB))
+	}
 }
